@@ -396,6 +396,101 @@ def oracle_ray(nm, a, out):
     return None
 
 
+# ---- integer instantiations (harness-only wrappers `i_*`): exact integer oracle
+
+IMIN, IMAX = -(1 << 31), (1 << 31) - 1
+_IVALS = [IMIN, IMIN + 1, -3, -1, 0, 1, 2, 5, IMAX - 1, IMAX]
+
+
+def _ival(rng):
+    return rng.pick(_IVALS) if rng.chance(0.6) else rng.randrange(-4, 5)
+
+
+def _irange(rng):
+    a, b = _ival(rng), _ival(rng)
+    return [min(a, b), max(a, b)] if rng.chance(0.85) else [a, b]
+
+
+def _ibox(rng):
+    r = [_irange(rng) for _ in range(3)]
+    return [x[0] for x in r] + [x[1] for x in r]
+
+
+def gen_int_cases(rng, tier):
+    per = 40 if tier == "quick" else 1500
+    sig = {"i_r1_default": "", "i_b3_default": "", "i_r1_extend_s": "rs", "i_r1_extend_r": "rr", "i_r1_def_extend_s": "s",
+           "i_r1_extend_def": "r", "i_r1_contains": "rs", "i_r1_empty": "r", "i_b3_extend_p": "bp", "i_b3_extend_b": "bb",
+           "i_b3_def_extend_p": "p", "i_b3_extend_def": "b", "i_b3_contains": "bp", "i_b3_empty": "b", "i_b3_inter": "bb",
+           "i_b3_disjoint": "bb", "i_b3_touch": "bb"}
+    cases = []
+    for nm in sorted(sig):
+        c = []
+        for _ in range(per if sig[nm] else 1):
+            vals = []
+            for t in sig[nm]:
+                vals += [_ival(rng)] if t == "s" else _irange(rng) if t == "r" else [_ival(rng) for _ in range(3)] if t == "p" else _ibox(rng)
+            c.append((nm + " " + " ".join(str(v) for v in vals)).strip())
+        cases += [c[i:i + 25] for i in range(0, len(c), 25)]
+    return cases, sig
+
+
+def int_oracle(nm, a, out):
+    """the closed-set semantics on integers; the default (empty) range/box is [MAX, MIN] per axis"""
+    o = out.split()
+    try:
+        res = [int(x) for x in o]
+    except ValueError:
+        return "unparsable result %r" % out
+    def rng_of(xs): return (xs[0], xs[1])
+    def box_of(xs): return (xs[0:3], xs[3:6])
+    empty_r = (IMAX, IMIN)
+    def ext_r(r, lo, hi): return (min(r[0], lo), max(r[1], hi))
+    if nm == "i_r1_default":
+        return None if res == [IMAX, IMIN, 1] else "the default range must be the empty range [INT_MAX, INT_MIN] and report empty(): got %s" % res
+    if nm == "i_b3_default":
+        return None if res == [IMAX] * 3 + [IMIN] * 3 + [1] else "the default box must be the empty box [INT_MAX^3, INT_MIN^3] and report empty(): got %s" % res
+    if nm in ("i_r1_extend_s", "i_r1_def_extend_s", "i_r1_extend_r", "i_r1_extend_def"):
+        if nm == "i_r1_extend_s": r, t = rng_of(a), (a[2], a[2])
+        elif nm == "i_r1_def_extend_s": r, t = empty_r, (a[0], a[0])
+        elif nm == "i_r1_extend_r": r, t = rng_of(a), rng_of(a[2:])
+        else: r, t = rng_of(a), empty_r
+        exp = list(ext_r(r, t[0], t[1]))
+        return None if res == exp else "extend must yield the smallest range containing both (the empty range is its identity): expected %s got %s" % (exp, res)
+    if nm == "i_r1_contains":
+        exp = int(a[0] <= a[2] <= a[1])
+        return None if res == [exp] else "contains(t) must be lower <= t <= upper: expected %s" % exp
+    if nm == "i_r1_empty":
+        exp = int(a[0] > a[1])
+        return None if res == [exp] else "empty() must be lower > upper: expected %s" % exp
+    if nm in ("i_b3_extend_p", "i_b3_def_extend_p", "i_b3_extend_b", "i_b3_extend_def"):
+        if nm == "i_b3_extend_p": b, t = box_of(a), (a[6:9], a[6:9])
+        elif nm == "i_b3_def_extend_p": b, t = ([IMAX] * 3, [IMIN] * 3), (a[0:3], a[0:3])
+        elif nm == "i_b3_extend_b": b, t = box_of(a), box_of(a[6:])
+        else: b, t = box_of(a), ([IMAX] * 3, [IMIN] * 3)
+        exp = [min(x, y) for x, y in zip(b[0], t[0])] + [max(x, y) for x, y in zip(b[1], t[1])]
+        return None if res == exp else "extend must yield the smallest box containing both (the empty box is its identity): expected %s got %s" % (exp, res)
+    if nm == "i_b3_contains":
+        b, p = box_of(a), a[6:9]
+        exp = int(all(l <= x <= u for l, x, u in zip(b[0], p, b[1])))
+        return None if res == [exp] else "contains(p) must be lower <= p <= upper in every component: expected %s" % exp
+    if nm == "i_b3_empty":
+        b = box_of(a)
+        exp = int(any(l > u for l, u in zip(b[0], b[1])))
+        return None if res == [exp] else "empty() must hold exactly when some axis has lower > upper: expected %s" % exp
+    if nm in ("i_b3_inter", "i_b3_disjoint", "i_b3_touch"):
+        b, c = box_of(a), box_of(a[6:])
+        inv = any(l > u for l, u in zip(b[0] + c[0], b[1] + c[1]))
+        inter = [max(x, y) for x, y in zip(b[0], c[0])] + [min(x, y) for x, y in zip(b[1], c[1])]
+        if nm == "i_b3_inter":
+            return None if res == inter else "intersectionOf must contain exactly the common points: expected %s got %s" % (inter, res)
+        if inv:
+            return None   # inverted inputs: the known finding of the float instantiation; not judged here
+        dis = int(any(l > u for l, u in zip(inter[:3], inter[3:])))
+        exp = dis if nm == "i_b3_disjoint" else 1 - dis
+        return None if res == [exp] else "%s must hold exactly when the intersection is %sempty: expected %s" % (nm[5:], "" if nm == "i_b3_disjoint" else "non-", exp)
+    return None
+
+
 def extra_stage(rep, ctx):
     """Property oracle on the real code's observations (search for a failing input; also run on every check)."""
     hb, hout = core.build_harness("c05", "harness/c05.cpp", (), HARNESSES[0]["flags"], core.SAN, "c++11", (), "-O1", HARNESSES[0]["extra_deps"])
@@ -434,6 +529,20 @@ def extra_stage(rep, ctx):
                 reported += 1
                 rep.violation(dict(kind="property-oracle", ops=[line], impl=[o], args=a, detail=msg,
                                    explanation="the real code's result violates the property statement on this input"))
+    # integer instantiations
+    icases, _ = gen_int_cases(core.Rng(rep.seed + 4000), rep.tier)
+    rc, out, err = core.run_prog(hb, core.cases_to_text(icases), timeout=600)
+    iio = core.split_output(out)
+    for k, c in enumerate(icases):
+        for line, o in zip(c, iio.get(k, [])):
+            w = line.split()
+            n += 1
+            distinct.add(line)
+            msg = int_oracle(w[0], [int(x) for x in w[1:]], o)
+            if msg and reported < 3:
+                reported += 1
+                rep.violation(dict(kind="property-oracle", ops=[line], impl=[o], args=[int(x) for x in w[1:]], detail="int32 instantiation: " + msg,
+                                   explanation="the real code's result for the integer instantiation violates the property statement on this input"))
     if len(samples) < 1 and cases:
         samples.append(dict(oracle_case=cases[0][:3], impl=io.get(0, [])[:3]))
     return dict(evaluations=n, distinct=distinct, samples=samples, found_input=reported > 0)
